@@ -171,6 +171,11 @@ func genC36(t *Tape) *Plan {
 		case 0:
 			g.Connect(slot)
 			g.plan.Ops[len(g.plan.Ops)-1].Concurrent = t.Draw("c36.burst", 2) == 0
+			if t.Draw("c36.redial", 3) == 0 {
+				// an auto-reconnecting client: dials again the moment it reads the shutdown DISCONNECT, that is while
+				// the shutdown sweep is still running
+				g.plan.Ops[len(g.plan.Ops)-1].Note = "auto-reconnect"
+			}
 		case 1:
 			g.ensureConnected(slot)
 			g.Subscribe(slot)
@@ -207,6 +212,30 @@ func checkC36(r *Result) []Violation {
 	for _, e := range r.H.Evs {
 		if e.Kind == "api" && e.Str == "close-returned" && e.Op == closeOp {
 			ret = e.Seq
+		}
+	}
+	// every listener stops accepting: the listener is stopped before the shutdown sweep over its clients begins
+	// (the first DISCONNECT 0x8B is a witness that the sweep is running), so a connection dialled after that
+	// instant is never handed to a connection handler
+	sweep := -1
+	for _, c := range ex.Conns {
+		for _, pr := range c.Pkts {
+			if pr.P.Type == refcodec.DISCONNECT && pr.P.ReasonCode == 0x8B && pr.Seq > r.Ex.opSeq[closeOp] && (sweep < 0 || pr.Seq < sweep) {
+				sweep = pr.Seq
+			}
+		}
+	}
+	if sweep >= 0 {
+		for _, c := range ex.Conns {
+			if c.openSeq <= sweep {
+				continue
+			}
+			c.mu.Lock()
+			started, at := c.readStarted, c.firstReadSeq
+			c.mu.Unlock()
+			if started {
+				out = append(out, viol("C36", "accepted-after-listener-stopped", fmt.Sprintf("conn %d was dialled (seq %d) after the shutdown sweep had begun (first DISCONNECT 0x8B at seq %d) and was still handed to a connection handler (first read at seq %d)", c.Idx, c.openSeq, sweep, at), at))
+			}
 		}
 	}
 	if d := ex.Deadlock; d != nil && d.OnlyWG {
